@@ -262,6 +262,11 @@ CFG_VALUE_TEXT = ("# Title\n\ntext *em* [l](u.md) <https://e.org> `c` $m$ {{ k }
                   "| a |\n|---|\n| b |\n\nterm\n: def\n\n:field: v\n\n$$\nx\n$$ (lbl)\n\n\\begin{equation}\ny\n\\end{equation}\n\n<div class=\"admonition\">x</div>\n\n<img src=\"i.png\">\n\n[](#sub) [](inv:k#x) <wiki:P>\n\n{a=b}\npara\n")
 
 OPTION_VALUES = ["", "x", "0", "-1", "1.5", "10px", "50%", "200%", "a b", "left", "image", "auto", "nosuch-encoding", "1 2 3", "\"q\"", "'", "\\", "é", "99999999999999999999", "#", "U+110000", "x" * 300]
+ATTR_LINES = ["{#aid}", "{.cls}", "{#aid .cls k=v}", "{#lbl}", "{#aid}\n{#bid .c2}", "{#Upper_Id}", "{#aid #aid2}", "{k=v}"]
+ATTR_BLOCKS = ["$$\nx\n$$ (lbl)", "$$\nx\n$$", "$$ x $$ (lbl)", "\\begin{equation}\ny\n\\end{equation}", "\\begin{align*}\ny\n\\end{align*}", "| a |\n|---|\n| b |", "```python\ncode\n```", "- item", "1. item", "> quote", "# heading", "text\n===",
+               "```{note}\nx\n```", ":::{tip}\nx\n:::", "<div>html</div>", "***", "term\n: def", ":field: v", "[^f]: note", "(tgt)=", "(lbl)=", "[ref]: http://x", "![img](i.png)", "{{ k }}", "% comment", "+++", "    indented code",
+               "```{figure} i.png\ncap\n```", "```{math}\n:label: lbl\nx\n```", "```{code-block} python\n:name: cb\nx\n```", "- [ ] task", "<img src='i.png'>", "<div class='admonition'>x</div>", "```{include} ok.md\n```", "```{eval-rst}\n.. _lbl:\n\ntext\n```",
+               "```{list-table}\n* - a\n```", "```{image} i.png\n```", "```{contents}\n```", "```{raw} html\n<b>\n```", "{#inner}\npara"]
 ISOLATION = [
     ["```{note}", "before {mvboom}`x` after", "```"], ["> ```{note}", "> {mvboom}`x`", "> ```"], ["````{tip}", "```{note}", "{mvboom}`x`", "```", "````"], ["```{mvboomdir}", "body", "```"],
     ["````{mvboomafter}", "## heading inside", "", "```{note}", "x", "```", "````"], ["```{include} boominc.md", "```"], ["- item", "", "  ```{note}", "  {mvboom}`x`", "  ```"], [":::{note}", "{mvboom}`x`", ":::"],
@@ -592,6 +597,28 @@ def run_shard(ctx):
                 ctx.case(("directive-option-value", dname, oname, v), True)
                 ctx.count("directive_option_value_documents")
     ctx.subrun("every_docutils_directive_option_value", exhaustive=True, values=len(OPTION_VALUES))
+    # a block-attribute line in front of EVERY kind of block (attrs_block applies to whatever block follows), alone and twice (duplicate ids), both front ends
+    k = 0
+    sph_parts = []
+    all_ext = [e for e in G.ALL_EXT if e != "linkify"]
+    for ai, al in enumerate(ATTR_LINES):
+        for bi, bl in enumerate(ATTR_BLOCKS):
+            for twice in (False, True):
+                k += 1
+                if k % ctx.nshards != ctx.shard:
+                    continue
+                one = al + "\n" + bl + "\n"
+                text = "before\n\n" + one + ("\n" + one if twice else "") + "\nafter [a](#aid) [l](#lbl) {eq}`lbl`\n"
+                case = {"kind": "doc", "sub": "attrs-before-block", "text": text, "cfg": {"enable_extensions": all_ext, "substitutions": {"k": "v"}}, "alarm_s": 10}
+                eval_case(ctx, case)
+                ctx.case(("attrs-before-block", ai, bi, twice), True)
+                ctx.count("attrs_before_block_documents")
+                sph_parts.append(text)
+    for j in range(0, len(sph_parts), 8):
+        case = {"kind": "sphinx", "sub": "attrs-before-block", "text": "# T\n\n" + "\n\n".join(sph_parts[j:j + 8]), "cfg": {"enable_extensions": all_ext, "substitutions": {"k": "v"}}, "builder": "html" if (j // 8) % 2 else "dummy"}
+        eval_case(ctx, case)
+        ctx.case(("sphinx-attrs-before-block", case["text"]), True)
+    ctx.subrun("attrs_before_every_block", exhaustive=True, attribute_lines=len(ATTR_LINES), blocks=len(ATTR_BLOCKS))
     for k in range(len(ISOLATION)):
         if k % ctx.nshards == ctx.shard % len(ISOLATION) or ctx.nshards <= k:
             case = {"kind": "doc", "sub": "isolation", "shape": k, "text": ""}
